@@ -1,20 +1,24 @@
 #!/usr/bin/env python3
-"""Records the depth-round (wave 8) seeded changes /tmp/seedout8-V*/{J,K} into /verif/seeded/V<t>-<v>/."""
+"""Records the depth-round (wave 8) seeded changes /tmp/wt8-V*/out (moved to /tmp/seedout8-V*) into /verif/seeded/V<t>-<v>/.
+usage: record_seeds_v.py [t ...]   (default: all of 1..10); several t are processed side by side."""
 import os, re, subprocess, sys, json, shutil
-for t in range(1, 11):
+from concurrent.futures import ThreadPoolExecutor
+def one(t):
+    res = []
     for var in "JK":
-        src = f"/tmp/seedout8-V{t}"
-        patch = f"{src}/{var}.patch.diff"
-        if not os.path.exists(patch): continue
-        notes = open(f"{src}/{var}.md").read()
-        prop = re.search(r"PROPERTY:\s*(C\d\d)", notes).group(1)
         sid = f"V{t}-{var}"
         d = f"/verif/seeded/{sid}"
+        if os.path.exists(f"{d}/meta.json"): continue
+        src = f"/tmp/seedout8-V{t}"
+        if not os.path.exists(f"{src}/{var}.patch.diff") and not os.path.exists(f"/tmp/wt8-V{t}/out/{var}.patch.diff"): continue
+        ver = json.loads(subprocess.run(["python3", "/verif/tools/verify_seed.py", f"V{t}", var], capture_output=True, text=True, errors="replace").stdout)
+        patch = f"{src}/{var}.patch.diff"
+        notes = open(f"{src}/{var}.md").read()
+        prop = re.search(r"PROPERTY:\s*(C\d\d)", notes).group(1)
         os.makedirs(d, exist_ok=True)
         shutil.copy(patch, f"{d}/patch.diff"); shutil.copy(f"{src}/{var}_demo_test.go", f"{d}/demo_test.go")
         open(f"{d}/notes.md", "w").write(notes)
-        ver = json.loads(subprocess.run(["python3", "/verif/tools/verify_seed.py", f"V{t}", var], capture_output=True, text=True, errors="replace").stdout)
-        p = subprocess.run(["/verif/tools/try_patch.sh", patch, prop, "1200"], capture_output=True, text=True, errors="replace")
+        p = subprocess.run(["/verif/tools/try_patch_scratch.sh", patch, prop, "1200"], capture_output=True, text=True, errors="replace")
         out = p.stdout + p.stderr
         viol = [l for l in out.splitlines() if l.startswith("violation:")]
         runs = re.search(r"runs=(\d+).*wall=([\d.]+)s", out)
@@ -24,9 +28,14 @@ for t in range(1, 11):
             "needs_to_manifest": notes.strip()[:1500],
             "confirmed_in_scratch_worktree": {k: ver.get(k) for k in ("a_build", "b_existing_tests_pass_with_change", "c_demo_fails_with_change", "d_demo_passes_clean")},
             "demo_test_dir": ver.get("demo_dir"),
-            "ran": f"git -C /repo apply patch.diff; VERIF_RUNS=1200 ./check.sh {prop} quick; git -C /repo apply -R patch.diff",
+            "ran": f"tools/try_patch_scratch.sh patch.diff {prop} 1200  (scratch worktree of /repo HEAD + patch, VERIF_REPO, quick check)",
             "detected": bool(viol), "exit_code_line": [l for l in out.splitlines() if l.startswith("exit=")][-1:],
             "detected_by_rules": rules, "first_violation": (viol[0][:600] if viol else None),
             "runs_until_stop": int(runs.group(1)) if runs else None, "wall_s": float(runs.group(2)) if runs else None}
         json.dump(meta, open(f"{d}/meta.json", "w"), indent=1)
-        print(sid, prop, "DETECTED" if viol else "MISSED", rules, flush=True)
+        line = f"{sid} {prop} {'DETECTED' if viol else 'MISSED'} {rules} verified={ver.get('ok')}"
+        print(line, flush=True); res.append(line)
+    return res
+ts = [int(a) for a in sys.argv[1:]] or list(range(1, 11))
+with ThreadPoolExecutor(3) as ex:
+    list(ex.map(one, ts))
